@@ -23,6 +23,12 @@ Fixpoint expand_ev {A} (s : nat) (r : list nat) (vals : list A) : list A :=
 Definition expand_evs {A} (ev : list nat) (vals : list A) : list A :=
   match ev with [] => [] | s :: r => expand_ev s r vals end.
 
+(* strictly increasing / non-decreasing event lists, in the same (start, rest) shape as expand_ev *)
+Fixpoint chain (R : nat -> nat -> Prop) (s : nat) (r : list nat) : Prop :=
+  match r with [] => True | e :: r' => R s e /\ chain R e r' end.
+Definition incr (l : list nat) : Prop := match l with [] => True | s :: r => chain lt s r end.
+Definition nondecr (l : list nat) : Prop := match l with [] => True | s :: r => chain le s r end.
+
 (* searchsorted on a sorted array *)
 Definition count_le (l : list nat) (p : nat) : nat := length (filter (fun e => e <=? p) l).  (* side='right' *)
 Definition count_lt (l : list nat) (p : nat) : nat := length (filter (fun e => e <? p) l).   (* side='left'  *)
@@ -93,6 +99,13 @@ Definition ndumps (c : cd) : nat := last (ev c) 0.
 Definition vals (c : cd) : list V := map (fun i => nth i (uv c) dflt) (idx c).
 (* THE SPEC OBJECT: explicit per-dump list of values *)
 Definition expand (c : cd) : list V := expand_evs (ev c) (vals c).
+
+(* THE INVARIANT: events strictly increasing, one more event than indices (the last one is the number of
+   dumps, ndumps), indices refer to unique values, unique values distinct *)
+Definition WF (c : cd) : Prop :=
+  incr (ev c) /\ length (ev c) = S (length (idx c)) /\
+  Forall (fun i => i < length (uv c)) (idx c) /\ NoDup (uv c).
+Definition start0 (c : cd) : Prop := hd 0 (ev c) = 0.
 
 (* list.index with == *)
 Fixpoint index_of (v : V) (l : list V) : option nat :=
